@@ -123,4 +123,52 @@ theorem rx_ok (x y : Side) (m : Msg) (rest wyx : List Msg)
   | goodbye => exact ⟨_, _, rfl⟩
   | _ => simp [isCtl, isOther] at hctl
 
+theorem mem_accPorts_head (lp rp : Nat) (rest : List Evt) : lp ∈ accPorts (Evt.accepted lp rp :: rest) := by
+  simp [accPorts]
+
+/-- **no queued event makes the dispatcher panic**: the head of either event queue of side `v` is
+handled by `handle_event` (`c` is the peer) -/
+theorem evt_ok (c v : Side) (wcv wvc : List Msg) (r : ReqInv c v wcv wvc) (hq : QType v) (hc : ClientInv v)
+    (ha : AllocInv v) (hh : HandleInv v) :
+    (∀ ev rest, v.connQ = ev :: rest → (handleEvt v.ep ev).isSome = true) ∧
+    (∀ ev rest, v.portQ = ev :: rest → (handleEvt v.ep ev).isSome = true) := by
+  constructor
+  · intro ev rest hcq
+    have hce := hq.conn ev (by rw [hcq]; simp)
+    cases ev with
+    | connectReq p w i =>
+      have hin : p ∈ heldNums v := by simp [heldNums, hcq, connPorts]
+      have hn := ha.core.disj p hin
+      simp only [handleEvt, hn, Option.isSome_none, Bool.false_eq_true, if_false]
+      split <;> rfl
+    | allClientsDropped =>
+      have hnd : v.ep.allClientsDropped = false := by
+        cases hx : v.ep.allClientsDropped with
+        | false => rfl
+        | true => have := hc.done hx; rw [hcq] at this; simp at this
+      simp [handleEvt, hnd]
+    | _ => simp [isConnEvt] at hce
+  · intro ev rest hpq
+    have hpe := hq.port ev (by rw [hpq]; simp)
+    cases ev with
+    | accepted lp rp =>
+      have hin : lp ∈ heldNums v := by simp [heldNums, hpq, accPorts]
+      have hn := ha.core.disj lp hin
+      have hout : rp ∈ v.ep.outstanding := (r.outMem rp).mp (by simp [outWhere, hpq, ansPorts])
+      have hcon : v.ep.outstanding.contains rp = true := by simpa using hout
+      simp [handleEvt, hn, hout]
+    | rejected rp np =>
+      have hout : rp ∈ v.ep.outstanding := (r.outMem rp).mp (by simp [outWhere, hpq, ansPorts])
+      simp [handleEvt, hout]
+    | senderDropped p =>
+      obtain ⟨c0, h1, h2⟩ := hh.sd p (Or.inr (by simp [hpq, sdPorts]))
+      simp [handleEvt, h1, h2]
+    | receiverClosed p =>
+      obtain ⟨c0, h1, h2, h3⟩ := hh.rc p (Or.inr (by simp [hpq, rcPorts]))
+      simp [handleEvt, h1, h2, h3]
+    | receiverDropped p =>
+      obtain ⟨c0, h1, h2⟩ := hh.rd p (Or.inr (by simp [hpq, rdPorts]))
+      simp [handleEvt, h1, h2]
+    | _ => simp [isPortEvt] at hpe
+
 end Remoc.Table.Sys
